@@ -105,7 +105,7 @@ def run(check, tier, seed, scratch):
         for k in range(3000 if quick else 80000):
             a, b = r2.randrange(len(UO)), r2.randrange(len(UI))
             fl = dict(c04.written_flags(UO[a], UI[b], r2), partial=False)
-            placement = ['auto_param', 'auto_param_default', 'auto_param_method'][k % 3]
+            placement = ['auto_param', 'auto_param_default', 'auto_param_method', 'auto_param_nested'][k % 4]
             if k % nshards == shard:
                 yield c04.prog_event('viapartial/%d-%s' % (k, placement), UO[a], UI[b], fl, placement)
 
